@@ -285,7 +285,7 @@ def run(ctx):
     ctx.extra["exhaustive_traces"] = n_exh
     # (2) random longer histories: deep cascades, retention 1..3, rotation disabled, long chunks, wide characters,
     #     restarts; every crash point of some rotations; several crashes in one history
-    nrand = ctx.pick(40, 1500)
+    nrand = ctx.pick(40, 600)
     for i in range(nrand):
         case = random_case(rng, rng.randint(6, 24), [0, 1, 2, 3, 4, 6, 10], [0, 0, 1, 2, 3])
         pick = lambda js: rng.sample(js, min(len(js), ctx.pick(2, 3)))
